@@ -151,14 +151,24 @@ Proof. intros J H. apply sign_frame with (s := s); auto. Qed.
 Lemma enter_prevote_J h r s : Inv6 s -> Inv6 (enter_prevote valid me h r s).
 Proof.
   intros J. unfold enter_prevote. destruct (_ || _); [exact J|]. unfold do_prevote.
-  destruct (locked s) as [lb|] eqn:El.
-  { apply sign_same; auto. intros _ _. exists lb. split; [now left|reflexivity]. }
-  destruct (pblock s) as [pb|] eqn:Ep.
-  2:{ apply sign_same; auto. intros _ Nz. discriminate. }
-  destruct (negb (valid (height s) pb)) eqn:Ev.
-  { apply sign_same; auto. intros _ Nz. discriminate. }
-  apply negb_false_iff in Ev.
-  apply sign_same; auto. intros _ _. exists pb. split; [right; auto|reflexivity].
+  set (s1 := match locked s with Some _ => if stale_lock s then unlock s else s | None => s end).
+  assert (C1 : height s1 = height s /\ log s1 = log s /\ pblock s1 = pblock s /\
+               (locked s1 = locked s \/ locked s1 = None)).
+  { subst s1. destruct (locked s); [|repeat split; auto]. destruct (stale_lock s); repeat split; auto. }
+  clearbody s1. destruct C1 as (A1 & A2 & A3 & A4).
+  assert (Hp : forall x, pblock s1 = Some x -> pblock s = Some x \/ locked s = Some x).
+  { intros x Hx. left. congruence. }
+  assert (Hk : forall x, locked s1 = Some x -> locked s = Some x \/ (pblock s = Some x /\ valid (height s) x = true)).
+  { intros x Hx. left. destruct A4 as [E|E]; congruence. }
+  unfold do_prevote_locked.
+  destruct (locked s1) as [lb|] eqn:El.
+  { apply sign_frame with (s := s); auto. intros _ _. exists lb. split; [|reflexivity]. now apply Hk. }
+  destruct (pblock s1) as [pb|] eqn:Ep.
+  2:{ apply sign_frame with (s := s); auto. intros _ Nz. discriminate. }
+  destruct (negb (valid (height s1) pb)) eqn:Ev.
+  { apply sign_frame with (s := s); auto. intros _ Nz. discriminate. }
+  apply negb_false_iff in Ev. rewrite A1 in Ev.
+  apply sign_frame with (s := s); auto. intros _ _. exists pb. split; [right; split; [congruence|exact Ev]|reflexivity].
 Qed.
 
 Lemma enter_precommit_J h r s : Inv6 s -> Inv6 (enter_precommit valid me h r s).
@@ -362,6 +372,7 @@ Proof.
   destruct (hvs_add vals peer v s) as [s1 added]. cbn in V1.
   assert (J1 : Inv6 s1) by (eapply Inv6_eq; eauto).
   destruct (negb added); [exact J1|].
+  destruct (step_eqb (rstep s1) SCommit); [exact J1|].
   destruct (v_type v).
   - set (s2 := match maj_of (get_vs s1 (v_round v) Prevote) with Some b => _ | None => s1 end).
     assert (J2 : Inv6 s2).
